@@ -1,6 +1,7 @@
 package c14
 
 import (
+	"sort"
 	"encoding/json"
 	"fmt"
 	"github.com/GuanceCloud/platypus/pkg/ast"
@@ -272,6 +273,34 @@ func TestRaisedDuringBuiltin(t *testing.T) {
 			"s1.p": {gen.NForIn("x", gen.NCall("pval", gen.NList()), []*gen.Node{gen.NCall("probe", gen.NStr("body"))}), gen.NCall("probe", gen.NStr("callee-after"))}}, false, []int{1}},
 	}
 	progs = append(progs, hdr...)
+	// the flag is raised during a call that is nested in a statement that is only an expression: the statement after it must not run
+	wrap := map[string]func(c *gen.Node) *gen.Node{
+		"paren":      func(c *gen.Node) *gen.Node { return gen.NParen(c) },
+		"minus":      func(c *gen.Node) *gen.Node { return gen.NUnary("-", c) },
+		"not":        func(c *gen.Node) *gen.Node { return gen.NUnary("!", c) },
+		"plus-one":   func(c *gen.Node) *gen.Node { return gen.NBin("+", c, gen.NInt(1)) },
+		"one-plus":   func(c *gen.Node) *gen.Node { return gen.NBin("+", gen.NInt(1), c) },
+		"equals":     func(c *gen.Node) *gen.Node { return gen.NBin("==", c, gen.NInt(0)) },
+		"and":        func(c *gen.Node) *gen.Node { return gen.NBin("&&", gen.NBool(true), gen.NBin("==", c, gen.NInt(1))) },
+		"in-list":    func(c *gen.Node) *gen.Node { return gen.NBin("in", c, gen.NList(gen.NInt(0), gen.NInt(1))) },
+		"list":       func(c *gen.Node) *gen.Node { return gen.NList(c) },
+		"map-value":  func(c *gen.Node) *gen.Node { return gen.NMap(gen.NStr("k"), c) },
+		"index":      func(c *gen.Node) *gen.Node { return gen.NIndex(id("lst"), c) },
+		"slice":      func(c *gen.Node) *gen.Node { return gen.NSlice(id("lst"), c, nil, nil, false) },
+		"ident-call": func(c *gen.Node) *gen.Node { return c },
+		"nested-arg": func(c *gen.Node) *gen.Node { return gen.NBin("+", gen.NCall("len", gen.NList(c)), gen.NInt(1)) },
+	}
+	var wnames []string
+	for k := range wrap {
+		wnames = append(wnames, k)
+	}
+	sort.Strings(wnames)
+	for _, wn := range wnames {
+		stmt := wrap[wn](gen.NCall("pval", gen.NInt(1)))
+		progs = append(progs, prog{"expression-statement-" + wn, map[string][]*gen.Node{"main.p": append([]*gen.Node{gen.NSet("lst", gen.NList(gen.NInt(5), gen.NInt(6))), gen.NCall("probe", gen.NStr("a")), stmt}, after()...)}, wn != "map-value", []int{2}})
+		progs = append(progs, prog{"expression-statement-in-loop-" + wn, map[string][]*gen.Node{"main.p": {gen.NSet("lst", gen.NList(gen.NInt(5), gen.NInt(6))),
+			gen.NFor(nil, nil, nil, append([]*gen.Node{wrap[wn](gen.NCall("pval", gen.NInt(1)))}, after()...))}}, wn != "map-value", []int{1, 4, 7}})
+	}
 	for _, w := range []int64{0, 10, 1000, 3000, 5000, 9000} {
 		// a caller that has been running for a while, then a callee in which the flag is raised, then three more statements
 		progs = append(progs, prog{fmt.Sprintf("warm-%d-then-callee", w), map[string][]*gen.Node{
@@ -653,6 +682,12 @@ func TestPollFromHostBuiltinV1(t *testing.T) {
 		{"main.p": "probe(\"s0\")\nif true {\n  for e in [1, 2] {\n    pwait()\n    probe(\"s1\", e)\n  }\n}\nprobe(\"s2\")"},
 		{"main.p": "probe(\"s0\")\nuse(\"lib.p\")\nprobe(\"s2\")", "lib.p": "probe(\"s1\")\npwait()\nprobe(\"s1\", 2)"},
 		{"main.p": "probe(\"s0\")\nx = [pval(1), pwait(), pval(2)]\nprobe(\"s1\")"},
+		// the waiting builtin is the first to learn that the run was told to stop, and the statement it belongs to goes on
+		// to enter a script that never ends by itself: the callee must learn it too
+		{"main.p": "probe(\"s0\")\nx = [pwait(), use(\"spin.p\")]\nprobe(\"s1\")", "spin.p": "for ;; {\n  probe(\"spin\")\n}"},
+		{"main.p": "probe(\"s0\")\nif pwait() == nil {\n  use(\"spin.p\")\n}\nprobe(\"s1\")", "spin.p": "n = 0\nfor ; true; n = n + 1 {\n  probe(\"spin\", n)\n}"},
+		{"main.p": "probe(\"s0\")\nuse(\"mid.p\")\nprobe(\"s1\")", "mid.p": "y = [[pwait()], [use(\"spin.p\")]]\nprobe(\"s2\")", "spin.p": "for ;; {\n  for e in [1, 2] {\n    probe(\"spin\", e)\n  }\n}"},
+		{"main.p": "probe(\"s0\")\nfor r = 0; r < 2; r = r + 1 {\n  pwait() in [use(\"spin.p\")]\n  probe(\"s1\", r)\n}\nprobe(\"s2\")", "spin.p": "for ;; {\n  probe(\"spin\")\n}"},
 	}
 	n := 0
 	for si, set := range sets {
@@ -666,6 +701,9 @@ func TestPollFromHostBuiltinV1(t *testing.T) {
 			pt := impl.NewPoint("m", map[string]string{"t": "v"}, map[string]any{"message": "m"})
 			rerr, crash := impl.RunV1(ok["main.p"], pt, sig)
 			rp := replay{(&sem.Case{Texts: set, Root: "main.p"}).Replay("a host builtin waits, asking the task whether the run was told to stop"), k}
+			if crash != nil && strings.Contains(crash.Value, "verif-probe-abort") {
+				rk.Fail(t, "host-wait-v1", rp, "v1: the run was still executing 100 probe calls after the signal had been observed true (poll %d, seen first by a waiting host builtin)\nscripts: %v", k, set)
+			}
 			if crash != nil {
 				rk.Fail(t, "host-wait-v1", rp, "v1: run crashed: %s", crash.Value)
 			}
